@@ -183,6 +183,22 @@ PROPS["C16"] = {
 }
 
 
+PROPS["C13"] = {
+    "level": "exploration",
+    "budget_s": {"quick": 70, "thorough": 2400},
+    "modes": [{"name": "", "runs": {"quick": 3000, "thorough": 80000}, "chunk": 100},
+              {"name": "faults", "runs": {"quick": 1000, "thorough": 25000}, "chunk": 100}],
+    "rule": ("one run = 6-30 steps; a third is normal write/read traffic, the rest are hostile requests: REST requests built from the 12 documented endpoints and then mutated 1-3 times "
+             "(JSON junk incl. null array elements, wrong types, truncation, deep nesting; bad page_size / max-depth / subject keys; bodies where none belong; wrong methods; odd paths) and gRPC requests with absent optional sub-messages, "
+             "unset oneofs, unknown enum values, negative / huge numbers. Oracles: no panic escapes the REST handler chain (ServeHTTP wrapped in recover); REST status < 500 and gRPC code not in {Internal, Unknown, ...} unless an injected SQL fault fired inside the request (mode 'faults'); "
+             "a request that was not accepted leaves the full listing equal to the model; the worker process survives (a death is re-confirmed in a fresh process). non-trivial = >=3 hostile requests; distinct = hash of the history."),
+    "probes": ["hostile_rest", "hostile_grpc", "client_errors", "accepted"],
+    "real": REAL_S, "stub": STUB_S,
+    "fault_kinds": {"io": "SQL statement I/O error", "busy": "database is locked", "badconn": "driver.ErrBadConn", "full": "SQLITE_FULL", "ctx": "context.Canceled"},
+    "assumptions": ["net/http would turn an escaped handler panic into a dropped connection; the property forbids the panic itself, so it is reported"],
+}
+
+
 def evidence(prop, spec, tier, seed, records, deaths, unfinished, planned, wall_s, sim_wall_s, build_s, nworkers, n_new, known_hits):
     runs = 0
     execs = 0
@@ -269,6 +285,9 @@ def evidence(prop, spec, tier, seed, records, deaths, unfinished, planned, wall_
 
 SIM = "deterministic simulation with fault injection"
 MANIFEST_TEXT = {
+ "C13": {"text": "seeded hostile request streams (mutated REST requests, gRPC messages with absent sub-messages) interleaved with normal traffic against the real routers and gRPC servers, with and without fail-stop SQL faults; panic, 5xx/Internal, state-change and process-death oracles",
+         "note": "sampling of an unbounded input space; transport framing (HTTP parsing, HTTP/2) is not exercised",
+         "technique": SIM + ": generated hostile histories with fault injection at the SQL-driver seam and a model of the stored state"},
  "C16": {"text": "seeded batches of adversarial names through the real mapper (round trips position by position) and through the write and read APIs, with an I/O fault variant on the mapping lookups",
          "note": "valid UTF-8, NUL-free names; SQLite only",
          "technique": SIM + ": generated batches across the internal paging boundaries, model comparison, SQL-statement fault injection"},
